@@ -1,11 +1,15 @@
-"""C06 - cursor listing yields each available physical object exactly once (shard level).
+"""C06 - cursor listing yields each available physical object exactly once (shard and engine level).
 
 spec/Metabase.tla: Listed(S) (implementation-shaped) with C06_Sound / C06_Complete checked by TLC on all
 reachable states; ListAfter(S, cursor) is the expected remainder of the listing for ANY start cursor
 (also cursors naming absent, removed or header-only ids). Binding: after random / TLC-simulated
 histories on a real shard, Shard.ListWithCursor is paged with sizes 1, 2, 3 and N from every catalogue
 cursor; TraceMetabase.PagesOK requires the concatenated pages to equal ListAfter, every page but the last
-to be full and none empty (so every object appears exactly once and the listing ends)."""
+to be full and none empty (so every object appears exactly once and the listing ends).
+Engine half: spec/EngineList.tla (code-shaped merge of per-shard pages vs the union reference, TLC over all
+distributions x visiting orders x cursors x page sizes); a real 3-shard StorageEngine with overlapping copies,
+removal marks and removed containers is listed with every visiting order (hook engine.unsortedShards), cursor
+and page size, and every call is validated as a record (ids, order, holder shards, next cursor, end)."""
 import json, random
 import meta_util as mu
 import vkit
@@ -60,8 +64,31 @@ def run(ck):
         if ck.violations:
             break
     ck.setcov("pages_validated", pages)
-    ck.assumptions.append("shard level only: the engine-level merge of several shards' listings (holder sets) is not covered by this check")
+    if not ck.violations:
+        engine_part(ck, thorough)
     ck.assumptions.append("objects carrying the 'redundant' garbage mark stay listed (they remain readable until GC); 'marked for removal' is read as tombstoned or default-marked")
+
+
+def engine_part(ck, thorough):
+    """Engine half: merged listing over several shards with overlapping copies, every visiting order."""
+    import os
+    ck.tlc_model("EngineList", "EngineList_thorough.cfg" if thorough else "EngineList_quick.cfg", timeout=3000)
+    binp = ck.gobuild("englist")
+    rec = os.path.join(ck.tmp, "englist.ndjson")
+    ck.harness(binp, ["run", 3, 4, 60 if thorough else 8, rec], timeout=3000)
+    recs = vkit.read_ndjson(rec)
+    r = ck.tlc_validate("TraceEngineList", "TraceEngineList.cfg", rec, timeout=3000)
+    ck.add("traces_validated_against_impl", len(recs))
+    ck.setcov("engine_list_calls_validated", len(recs))
+    ck.setcov("engine_distinct_distributions", len({json.dumps(x["listed"]) for x in recs}))
+    ck.sample({"engine_record": recs[len(recs) // 3]})
+    if not r.ok:
+        if r.kind == "invariant" and r.name == "C06_RecordOK":
+            pos = vkit.stuck_position(r) or 1
+            bad = recs[pos - 1]
+            ck.violation("engine listing differs from the union of the shards' listings: %s" % json.dumps(bad)[:1200], {"engine_record": bad})
+        else:
+            raise vkit.Infra("engine record validation ended with %s %s" % (r.kind, r.name))
 
 
 def finish(ck, cat, out):
